@@ -716,6 +716,10 @@ func (g *gen) convert(st *State, x *ssa.Convert) *Val {
 			return scalar(to, s)
 		}
 		g.assumeGlobal(Eq(StrLen(s), v.Len()))
+		if g.bytes2str == nil {
+			g.bytes2str = map[int]*Val{}
+		}
+		g.bytes2str[s.id] = v
 		if src, ok := g.str2bytes[v.Arr().id]; ok && v.Off().IsLit() && v.Off().I.Sign() == 0 {
 			_ = src
 		}
